@@ -46,7 +46,7 @@ class Exec:
         s.max_steps = max_steps; s.qtimeout = qtimeout_ms; s.harness_prefix = harness_prefix
         s.conc_inputs = conc_inputs; s.trace = []     # conc mode: list of inputs consumed in order; trace of outs/asserts
         s.called = set(); s.path_samples = []; s.completed_models = []; s.keep_models = 0
-        s.domain_checks = False; s.domain_issues = []; s.record_reads = False; s.eager_writes = False; s.eager_seen = set()
+        s.domain_checks = False; s.domain_fdiv = True; s.domain_issues = []; s.record_reads = False; s.eager_writes = False; s.eager_seen = set()
         s.srt = z3.RealSort() if mode == 'real' else F64
         s.deadline = None; s.fork_select = True; s.libm_axioms = True; s.libm_mono = True; s.div_as_mul = True; s.ackermann = False; s.ack_vars = {}; s.ack_keep = []; s.vcache = {}; s.slicing = (mode == 'real')
     # ------------------------------------------------------------ solver
@@ -575,7 +575,7 @@ class Exec:
             if ins[5].k == 'vec':
                 regs[dest] = ('agg', [s.fbin(ins[2], x, y) for x, y in zip(a[1], b[1])])
             else:
-                if s.domain_checks and ins[2] == 'fdiv': s.domain_div(st, fr, b)
+                if s.domain_checks and s.domain_fdiv and ins[2] == 'fdiv': s.domain_div(st, fr, b)
                 regs[dest] = s.fbin(ins[2], a, b)
             fr.ip += 1; return
         if op == 'fcmp':
